@@ -18,16 +18,13 @@ G = importlib.import_module("C01")
 
 PID = "C16"
 KEY = {
-    "here": "extents/count-vs-eof/internal-sample-minus-one-taken-for-GD_HERE",
-    "rawneg": "extents/count-vs-eof/raw-window-before-sample-zero",
     "alloczero": "extents/count-vs-eof/zero-length-buffer-internal-error",
     "mplexseek": "extents/count-vs-eof/mplex-lookback-reseek-range-error",
     "empty2": "extents/count-vs-eof/second-input-empty",
-    "lincomrate": "extents/count-vs-eof/lincom-multirate-count",
     "unaligned": "extents/count-vs-eof/multirate-unaligned-start",
     "mplexrate": "extents/count-vs-eof/mplex-multirate",
 }
-PRIO = ["here", "rawneg", "alloczero", "mplexseek", "empty2", "lincomrate", "unaligned", "mplexrate"]
+PRIO = ["alloczero", "mplexseek", "empty2", "unaligned", "mplexrate"]
 K_CLAMP = "extents/eof-bof-clamped-inside-nested-phase"
 K_BOFPHASE = "extents/bof-of-fields-with-phase"
 K_IMAG = "extents/imaginary-part-of-real-field-ignores-eof"
